@@ -39,7 +39,7 @@ Print Assumptions c06_eq_same_name.
 
 (** Regression witness for fix F4: a column that nothing feeds and that feeds nothing was
     reported as a one-node path by all_simple_paths; the filter [1 < length] removes it. *)
-Definition tx : dataset := {| dk := KTable; deq := "<default>.x"; dstr := "<default>.x"; dschema := "<default>" |}.
+Definition tx : dataset := {| dk := KTable; deq := "<default>.x"; dstr := "<default>.x"; dschema := "<default>"; draw := ""; dalias := ""; dquery := None |}.
 Definition lonely : graph :=
   {| gnodes := [(NData tx, [("write", true)]); (NCol {| craw := "q"; cparents := [tx] |}, [])];
      gedges := [(NData tx, NCol {| craw := "q"; cparents := [tx] |}, {| etype := "has_column"; eindex := Some 1 |})] |}.
